@@ -23,6 +23,7 @@ LEAFTYPES = {
     "Float[*v]": (["arr", "*v"], [A((2,)), A((2, 3)), ["duck2", [2]]]),
     "Float[a b]": (["arr", "a b"], [A((2, 3)), A((3, 3)), A((2,))]),
     "Union[int,Float[a]]": (["union", [["int"], ["arr", "a"]]], [["lit", 1], A((2,)), A((3,))]),
+    "Union[Float[a 3],Float[b a]]": (["union", [["arr", "a 3"], ["arr", "b a"]]], [A((2, 5)), A((2, 3)), A((4, 4))]),
 }
 
 CONTEXTS = {
